@@ -216,6 +216,11 @@ class Evaluator(object):
         params = fn.get('params', [])
         saved_mut = self.mutated
         self.mutated = dict(self.mutated_locals(path, fn))
+        saved_tr = getattr(self, 'tracked', set())
+        if not getattr(self, 'tracked_by_caller', False):
+            self.tracked = set(saved_tr) | self.trackable_locals(fn, False)
+        for lid in self.tracked:
+            self.mutated.pop(lid, None)
         for i, prm in enumerate(params):
             # a parameter the caller names keeps that name (it is an opaque variable anyway)
             if prm.get('k') == 'Bind' and (arg_terms is None or (i < len(arg_terms) and arg_terms[i] is not None and arg_terms[i][0] == 'var')):
@@ -224,6 +229,32 @@ class Evaluator(object):
             return self._run_fn(fn, path, params, env, arg_terms, guards, chain)
         finally:
             self.mutated = saved_mut
+            self.tracked = saved_tr
+
+    def trackable_locals(self, fn, pathwise):
+        """Locals that are re-assigned but can be followed exactly: never handed out as `&mut`, never assigned inside a
+        loop or closure, and -- unless the caller walks paths one by one -- never assigned under a branch."""
+        assigned, bad = set(), set()
+
+        def rec(n, in_loop, in_branch):
+            if not isinstance(n, dict):
+                return
+            k = n.get('k')
+            if k in ('Assign', 'AssignOp') and n['l'].get('k') == 'Local':
+                lid = n['l']['id']
+                assigned.add(lid)
+                if in_loop or (in_branch and not pathwise):
+                    bad.add(lid)
+            if k == 'AddrOf' and n.get('mut') and n['e'].get('k') == 'Local' and not n['e'].get('ty', '').startswith('&'):
+                bad.add(n['e']['id'])
+            if k == 'MethodCall' and n.get('recv', {}).get('k') == 'Local' and 'mut' in str(n.get('adj', '')).lower():
+                bad.add(n['recv']['id'])
+            loop = in_loop or k in ('Loop', 'Closure') or (k == 'Match' and n.get('src') == 'ForLoop')
+            branch = in_branch or k in ('If', 'Match')
+            for _, c in H.children(n):
+                rec(c, loop, branch)
+        rec(fn.get('hir', {}), False, False)
+        return assigned - bad
 
     def mutated_locals(self, path, fn):
         """Locals that are re-assigned, or handed out as `&mut local`, somewhere in the body
@@ -624,6 +655,19 @@ class Evaluator(object):
             t = ('index', b, i)
             self.emit('index', t, node, guards, fn, chain)
             return t
+        if k in ('Assign', 'AssignOp') and node['l'].get('k') == 'Local' and node['l']['id'] in getattr(self, 'tracked', ()):
+            # a local whose every update the reader follows exactly (straight-line on this path, never lent out):
+            # keep its current value instead of an opaque name; the update itself is not an effect
+            lid = node['l']['id']
+            r = self.eval(node['r'], env, guards, fn, chain)
+            if k == 'Assign':
+                env[lid] = r
+            else:
+                old = env.get(lid)
+                if old is None:
+                    old = ('var', node['l'].get('name', '?'), lid)
+                env[lid] = ('bin', node['op'].rstrip('='), old, r)
+            return ('unit',)
         if k == 'Assign':
             r = self.eval(node['r'], env, guards, fn, chain)
             l = self.eval(node['l'], env, guards, fn, chain)
